@@ -82,6 +82,29 @@ NeuroOK(e, i, uprev, eprev, xpprev) ==
        /\ s.w = e.w
        /\ NeuroOK(e, i + 1, u, err, xp)
 
+\* single-neuron controller with learning on; integers: u, w in units of 1/256 (rounded), errors in halves (e2 = 2 e),
+\* learning rates 2^-sh[j].  One step is re-derived from the logged values of the step before, within the rounding:
+\*   (w(k) - w(k-1)) 2^(sh+2)  =  e2(k) u(k-1) x2(k-1)                      (x2 = 2 x, the inputs after the previous step)
+\*   2 (u(k) - u(k-1)) norm(k)  =  256 (wp xp2 + wi e2 + wd xd2)(k)          while the output is strictly inside its limits
+RECURSIVE LearnOK(_, _, _, _, _, _, _)
+LearnOK(e, i, uprev, wprev, e2prev, xp2prev, xd2prev) ==
+  IF i > Len(e.steps) THEN TRUE
+  ELSE LET s == e.steps[i]
+           xp2 == s.e2 - e2prev  xd2 == xp2 - xp2prev
+           xs == <<xp2prev, e2prev, xd2prev>>                     \* what the learning step sees
+           xk == <<xp2, s.e2, xd2>>                               \* what the output step sees
+           norm == AbsI(s.w[1]) + AbsI(s.w[2]) + AbsI(s.w[3])
+           num == s.w[1] * xk[1] + s.w[2] * xk[2] + s.w[3] * xk[3]
+           du == s.u - uprev
+           sumx == AbsI(xk[1]) + AbsI(xk[2]) + AbsI(xk[3])
+           L == e.lim * 256 IN
+       /\ \A j \in 1..3 :
+             AbsI((s.w[j] - wprev[j]) * (2 ^ (e.sh[j] + 2)) - s.e2 * uprev * xs[j]) <= 3 * (2 ^ (e.sh[j] + 2)) + AbsI(s.e2 * xs[j])
+       /\ s.u >= -L /\ s.u <= L
+       /\ ((s.u > -L + 2 /\ s.u < L - 2 /\ norm > 8) =>
+             AbsI(2 * du * norm - 256 * num) <= 2 * (2 * norm + 3 * AbsI(du) + 128 * sumx) + 64)
+       /\ LearnOK(e, i + 1, s.u, s.w, s.e2, xp2, xd2)
+
 Accept(e) ==
   CASE e.f = "mf" ->
          LET want == Mf(e.kind, RNorm(e.xi, 4), Qp(e.p)) IN
@@ -122,6 +145,7 @@ Accept(e) ==
     \*   u(k) = clamp(u(k-1) + K (wp xp + wi xi + wd xd) / (|wp| + |wi| + |wd|)),
     \*   xi = e(k), xp = e(k) - e(k-1), xd = e(k) - 2 e(k-1) + e(k-2); the weights do not move
     [] e.f = "npidx" -> NeuroOK(e, 1, Zero, Zero, Zero)
+    [] e.f = "npidl" -> e.inrange = 1 => LearnOK(e, 1, 0, e.w0, 0, 0, 0)
     [] OTHER -> FALSE
 
 TraceInit == l = 1
